@@ -92,9 +92,13 @@ def main():
             for h, row in to_replay[cap:]:
                 inconclusive.append(f"{short(h)}: {row['new_keys']} failed but replay budget ({cap}) exhausted; not replayed")
             to_replay = to_replay[:cap]
-        with ThreadPoolExecutor(max_workers=3) as ex:
-            futs = [ex.submit(extract_ce, pid, spec, mdir, gmap[row["group"]], h, row, tier_cfgs) for h, row in to_replay]
-            recs = [f.result() for f in futs]
+        if a.no_replay:
+            recs = [{"property": pid, "harness": h, "keys": row["new_keys"], "reproduced": False, "path": None, "mode": "solver-only",
+                     "group_name": row["group"], "tests": [], "file": None, "module": module_of(h), "group": {"cfgs": [], "features": []}} for h, row in to_replay]
+        else:
+            with ThreadPoolExecutor(max_workers=3) as ex:
+                futs = [ex.submit(extract_ce, pid, spec, mdir, gmap[row["group"]], h, row, tier_cfgs) for h, row in to_replay]
+                recs = [f.result() for f in futs]
         native_stage(pid, mdir, recs, gmap, tier_cfgs, skip_native=a.no_replay)
         for rec in recs:
             finish_replay_record(pid, rec)
@@ -270,9 +274,11 @@ def finish_replay_record(pid, rec):
 
 
 def locate_harness_file(mdir, h):
-    parts = h.split("::")[:-2]  # module path of the parent file
+    full = h.split("::")[:-1]   # the harness module itself may be a file module (src/verif/jit_gen.rs) ...
+    parts = h.split("::")[:-2]  # ... or an inline module appended to its parent's file
+    fbase = os.path.join(mdir, "src", *full)
     base = os.path.join(mdir, "src", *parts)
-    for cand in (base + ".rs", os.path.join(base, "mod.rs")):
+    for cand in (fbase + ".rs", os.path.join(fbase, "mod.rs"), base + ".rs", os.path.join(base, "mod.rs")):
         if os.path.exists(cand):
             return os.path.relpath(cand, mdir)
     if not parts:
@@ -329,7 +335,8 @@ def write_evidence(pid, spec, tier, seed, t0, results, rows, violations, known_h
     for h, r in list(sorted(rows.items()))[:400]:
         samples.append({"harness": short(h), "verdict": r["verdict"], "cbmc_checks": r["n_checks"],
                         "obligations_proved": len(r.get("tags_ok", [])),
-                        "failed": [R.fail_key(f) for f in r["failed"]][:8],
+                        "failed": sorted({R.fail_key(f) for f in r["failed"]}),
+                        "observations": r.get("observations", []),
                         "wall_ms": r["duration_ms"],
                         "vccs": r["stats"].get("vccs_generated"), "solver_s": r["stats"].get("runtime_decision_procedure_s")})
     lvl = spec["level"]
